@@ -279,3 +279,38 @@ func Parse(b []byte) (*Parsed, error) {
 	p.Payload = b[n:end]
 	return p, nil
 }
+
+// CanonicalImage reports whether b is a well-formed packet in the minimal layout: parsing
+// it strictly and rebuilding its content without any optional padding gives b again.
+func CanonicalImage(b []byte) bool {
+	p, err := Parse(b)
+	if err != nil {
+		return false
+	}
+	w := &Wire{Version: p.Version, Marker: p.Marker, PT: p.PT, Seq: p.Seq, TS: p.TS, SSRC: p.SSRC, CSRC: p.CSRC,
+		X: p.X, Profile: p.Profile, Payload: p.Payload, PadSize: p.PadSize}
+	if p.X {
+		if w.Is8285() {
+			seen := map[uint8]bool{}
+			for _, e := range p.Elems {
+				if seen[e.ID] {
+					return false
+				}
+				seen[e.ID] = true
+				w.Items = append(w.Items, Item{Kind: ItemElem, Elem: e})
+			}
+		} else {
+			w.Legacy = p.Elems[0].Val
+		}
+	}
+	img := w.Build()
+	if len(img) != len(b) {
+		return false
+	}
+	for i := range img {
+		if img[i] != b[i] {
+			return false
+		}
+	}
+	return true
+}
